@@ -78,6 +78,41 @@ CLAIMED["C04"] = dict(
     ),
 )
 
+CLAIMED["C05"] = dict(
+    category="exploration",
+    design_ref="DESIGN.md section 4 (C05)",
+    technique="deterministic simulation: seeded operation-and-fault histories (failing runs, in-place reuse of passed buffers, clear, reopen of the cache file, pickle) on a discipline, checked operation by operation against the uncached reference and a stored-input model",
+    text=(
+        "A harness discipline (several inputs/outputs, self-coupled variable, optional sparse Jacobian) with each cache policy (none, last "
+        "evaluation, in-memory with plain or manager dictionary, HDF5 file) and exact or tolerance matching is driven through tape-chosen histories "
+        "of execute/linearize with repeated, new, within-tolerance and partially defaulted inputs, interleaved with faults: the body raises, the "
+        "caller overwrites in place an array it passed earlier, the cache is cleared, the HDF5 cache is reopened with fresh objects (restart from "
+        "durable state), the discipline is pickled and replaced. Each returned output/Jacobian must equal the uncached value for the same input "
+        "(for a tolerance: for a stored input within it); the body may not run for a stored input; entries equal the distinct stored inputs."
+    ),
+    note=(
+        "Arrays returned by the discipline are not mutated (outside the statement). Tolerance runs keep inputs either well inside or far outside the "
+        "tolerance. Concurrent sharing of caches is decided under C13. Trusted: h5py, xxhash."
+    ),
+)
+CLAIMED["C11"] = dict(
+    category="exploration",
+    design_ref="DESIGN.md section 4 (C11)",
+    technique="deterministic simulation: seeded store/export/reopen/restart histories on the incremental HDF5 history file, checked after every export against an ordered-dict model and at the end against a single export",
+    text=(
+        "Tape-chosen histories of {new point, new outputs at an existing point, append export, whole export, export through OptimizationProblem.to_hdf, "
+        "reload, restart from the file with a fresh database object} over all value kinds (python float, 0-d, size-1, vector, matrix, list, empty entry; "
+        "float and integer points; root and nested node). After every export the file is reloaded and compared with the model (points in order, dtype, "
+        "names, values, gradients); at the end the incrementally written file must reload to the same content as a single export, and the design space "
+        "and problem are round-tripped once."
+    ),
+    note=(
+        "The simulated dimension is the durable file across exports and restarts; no I/O error or torn write is injected (HDF5 promises nothing after one). "
+        "One-shot round trips 'for all design spaces/problems' and the CSV/text formats are pure functions of the object and only reached incidentally; "
+        "the reopen clause for discipline caches is decided under C05."
+    ),
+)
+
 NOT_APPLICABLE = {
     "C02": "in-memory data structure driven by one caller: no schedule, clock, I/O or fault for a simulator to own; a history of edits is an input to a deterministic function (model-based property testing, another technique)",
     "C06": "deterministic numerics: the result is a function of the coupled system and settings; the only schedule-dependent part (parallel Jacobi) is decided under C13",
